@@ -252,7 +252,9 @@ def run(ctx) -> None:
                 ctx.ob("C13.R2-progress", n, ok, "repeatRetries written only by the decrement" if ok else
                        "repeatRetries is written in %s (it can be replenished: no bounded number of attempts)" % q)
     init = eng.func("RepeatingEngine.__init__")
-    mr = match.assigned_value(init, "max_retries")
+    mr_names = {t.id for n in source.walk_own(init) if isinstance(n, ast.Assign) and isinstance(n.value, ast.Subscript)
+                and isinstance(n.value.slice, ast.Constant) and n.value.slice.value == "repeatRetries" for t in n.targets if isinstance(t, ast.Name)}
+    mr = [v for nm in mr_names for v in match.assigned_value(init, nm)]
     ok_src = any(isinstance(v, ast.Subscript) and isinstance(v.slice, ast.Constant) and v.slice.value == "repeatRetries" for v in mr)
     ok_def = any(isinstance(v, ast.Constant) and v.value == 3 for v in mr)
     ctx.ob("C13.R2-progress", mr[0] if mr else init, ok_src and ok_def,
@@ -261,7 +263,10 @@ def run(ctx) -> None:
 
     # ---------------- R3 ------------------------------------------------------------------------------
     consume_tests = match.test_nodes(cfg, lambda t: match.polarity(t, lambda e: source.src(e) == "self.consume"))
-    newout_tests = match.test_nodes(cfg, lambda t: "T" if isinstance(t, ast.Name) and t.id == "isNewOutput" else None)
+    newout_names = {t.id for n in source.walk_own(etc) if isinstance(n, ast.Assign) and isinstance(n.value, ast.Call)
+                    and last_attr(n.value) == "producersHaveOutputSinceDate" for t in n.targets if isinstance(t, ast.Name)}
+    ctx.require(bool(newout_names), "anchor missing: <local> = self.job.producersHaveOutputSinceDate(..) in EngineTaskController")
+    newout_tests = match.test_nodes(cfg, lambda t: "T" if isinstance(t, ast.Name) and t.id in newout_names else None)
     noprod_tests = match.test_nodes(cfg, lambda t: match.polarity(
         t, lambda e: isinstance(e, ast.Call) and call_name(e) == "bool" and "producerInstances" in source.src(e)))
     for g in gens:
@@ -321,7 +326,8 @@ def run(ctx) -> None:
                "a repeating component can finish stageIn without any route to _notifyProducersFinished: it never learns "
                "that its producers finished and never stops", construct="stageIn wires _notifyProducersFinished")
     # subscription source: merged notifyFinished of alive producers
-    ps = match.assigned_value(si, "producerStates")
+    ps = [n.value for n in source.walk_own(si) if isinstance(n, ast.Assign) and isinstance(n.value, ast.ListComp)
+          and "notifyFinished" in source.src(n.value.elt)]
     ok = any(isinstance(v, ast.ListComp) and "notifyFinished" in source.src(v.elt) and "self.producers" in source.src(v.generators[0].iter)
              for v in ps)
     ctx.ob("C13.R4-notification-wiring", ps[0] if ps else si, ok, "the merged stream is built from every producer's notifyFinished" if ok else
@@ -388,11 +394,19 @@ def run(ctx) -> None:
     ctx.analysed(monf)
     c6 = CFG(monf)
     cancel_tests = match.test_nodes(c6, lambda t: "T" if (isinstance(t, ast.Call) and last_attr(t) == "is_set" and "cancelEvent" in source.src(t)) else None)
+    # roles of two locals of the monitor loop: CONT = the name tested by the while loop that contains the action call;
+    # EXE = the name whose truth guards the action call
+    acts0 = [c for c in ast.walk(monf) if isinstance(c, ast.Call) and call_name(c) == "action"]
+    ctx.require(bool(acts0), "anchor missing: action(...) call in the monitor")
+    loops_ = [a for a in source.ancestors(acts0[0]) if isinstance(a, ast.While) and isinstance(a.test, ast.Name)]
+    guards_ = [a for a in source.ancestors(acts0[0]) if isinstance(a, ast.If) and isinstance(a.test, ast.Name)]
+    ctx.require(bool(loops_) and bool(guards_), "anchor missing: 'while <flag>: ... if <flag>: action(..)' in the monitor")
+    CONT, EXE = loops_[0].test.id, guards_[0].test.id
     exe_defs = [n for n in c6.nodes if n.kind == "stmt" and isinstance(n.ast, ast.Assign)
-                and any(isinstance(t, ast.Name) and t.id == "executeAction" for t in n.ast.targets)]
+                and any(isinstance(t, ast.Name) and t.id == EXE for t in n.ast.targets)]
     last_defs = [n for n in exe_defs if isinstance(n.ast.value, ast.Name) and n.ast.value.id == "lastAction"]
     acts = match.nodes_calling(c6, lambda c: call_name(c) == "action")
-    exe_tests = match.test_nodes(c6, lambda t: "T" if isinstance(t, ast.Name) and t.id == "executeAction" else None)
+    exe_tests = match.test_nodes(c6, lambda t: "T" if isinstance(t, ast.Name) and t.id == EXE else None)
     ok = bool(last_defs) and bool(cancel_tests) and all(match.only_via_edges(c6, d, cancel_tests) for d in last_defs)
     bad_defs = [d for d in exe_defs if d not in last_defs and not (isinstance(d.ast.value, ast.Constant) and d.ast.value.value is True)]
     ok = ok and not bad_defs
@@ -401,12 +415,12 @@ def run(ctx) -> None:
     for a in acts:
         ok = bool(exe_tests) and match.only_via_edges(c6, a, exe_tests)
         call = [c for c in own_calls(a.ast) if call_name(c) == "action"][0]
-        ok2 = len(call.args) == 1 and source.src(call.args[0]) == "not continueAction"
+        ok2 = len(call.args) == 1 and source.src(call.args[0]) == "not " + CONT
         ctx.ob("C13.R5-last-action", call, ok and ok2, "action(not continueAction) under executeAction" if ok and ok2 else
                "the monitor's action call is no longer 'action(not continueAction)' under executeAction")
     # after the last action the loop ends (continueAction False on cancel)
     cont_defs = [n for n in c6.nodes if n.kind == "stmt" and isinstance(n.ast, ast.Assign)
-                 and any(isinstance(t, ast.Name) and t.id == "continueAction" for t in n.ast.targets)
+                 and any(isinstance(t, ast.Name) and t.id == CONT for t in n.ast.targets)
                  and isinstance(n.ast.value, ast.Constant) and n.ast.value.value is False]
     ok = bool(cont_defs) and all(match.only_via_edges(c6, d, cancel_tests) for d in cont_defs)
     ctx.ob("C13.R5-last-action", monf, ok, "the monitor stops looping only after the cancel event" if ok else
@@ -427,8 +441,11 @@ def run(ctx) -> None:
     er = eng.func("RepeatingEngine.exitReason")
     ctx.analysed(er)
     c7 = CFG(er)
+    ret_names = {n.ast.value.id for n in c7.nodes if n.kind == "stmt" and isinstance(n.ast, ast.Return) and isinstance(n.ast.value, ast.Name)}
+    ctx.require(len(ret_names) == 1, "anchor missing: RepeatingEngine.exitReason returns one local (found %s)" % sorted(ret_names))
+    REASON = next(iter(ret_names))
     sets_ = [n for n in c7.nodes if n.kind == "stmt" and isinstance(n.ast, ast.Assign)
-             and any(isinstance(t, ast.Name) and t.id == "reason" for t in n.ast.targets)
+             and any(isinstance(t, ast.Name) and t.id == REASON for t in n.ast.targets)
              and not (isinstance(n.ast.value, ast.Constant) and n.ast.value.value is None)]
     cancel = match.test_nodes(c7, lambda t: "T" if (isinstance(t, ast.Call) and last_attr(t) == "is_set") else None)
     proc = match.test_nodes(c7, lambda t: "T" if (match.compare_parts(t) and source.src(match.compare_parts(t)[0]) == "self.process"
@@ -447,6 +464,6 @@ def run(ctx) -> None:
                construct=short(s_.ast) + " <- no process or kernelCompleted")
     rets = [n for n in c7.nodes if n.kind == "stmt" and isinstance(n.ast, ast.Return)]
     for r_ in rets:
-        ok = isinstance(r_.ast.value, ast.Name) and r_.ast.value.id == "reason"
+        ok = isinstance(r_.ast.value, ast.Name) and r_.ast.value.id == REASON
         ctx.ob("C13.R6-exit-reason", r_.ast, ok, "returns the computed reason" if ok else "exitReason returns something else than the computed reason",
                trivial=True)
